@@ -444,9 +444,8 @@ Section Reentrant.
       - destruct (RC.finish c i) as [c' [j| |]]; discriminate.
       - destruct (RC.miss_begin c a_as a) as [[c1 ev] v].
         unfold run_callback. destruct (backing a_as) as [as'|].
-        + destruct (64 <=? as'); [discriminate|].
-          pose proof (nested_fuel (N.shiftl 1 as') KStore (FA a (Z.of_N a_as)) c1 (or_introl eq_refl)) as Hn.
-          destruct (nested infl (N.shiftl 1 as') KStore (FA a (Z.of_N a_as)) c1) as [[x|v0|st| |] c2];
+        + pose proof (nested_fuel (caps_of (Z.of_N as')) KStore (FA a (Z.of_N a_as)) c1 (or_introl eq_refl)) as Hn.
+          destruct (nested infl (caps_of (Z.of_N as')) KStore (FA a (Z.of_N a_as)) c1) as [[x|v0|st| |] c2];
             cbn [fst] in Hn; try contradiction.
           * destruct (gp as' (fa_addr x)) as [st|[[b sz] d]].
             -- destruct (RC.miss_end c2 v None) as [[c3 e3] r3]. destruct (st =? ST_OK)%Z; discriminate.
